@@ -110,7 +110,8 @@ func (m *Model) inferAccount(t *syntax.Transaction, b *syntax.Booking, other str
 			continue // the other account of this booking is not a valid candidate
 		}
 		score := m.scoreCandidate(candidate, tokens)
-		if score > max {
+		// equal scores are resolved by name, not by map iteration order
+		if score > max || (found && score == max && candidate < best) {
 			best = candidate
 			max = score
 			found = true
